@@ -1,4 +1,6 @@
 import LLRP.Model.Codec
+import LLRP.Model.SchemaWF
+import LLRP.Proofs.CodecRT
 import LLRP.Gen.Schema
 import LLRP.Gen.Structs
 import LLRP.Gen.MsgTables
@@ -11,6 +13,73 @@ trusted and sampled by the correspondence's JSON leg).
 -/
 namespace LLRP.C01
 open LLRP
+
+/-! ## binary form: `decode ∘ encode = id` on well-formed values
+
+`fits S c v` is "well-formed value of container `c`" (field ranges, counts and byte lengths < 2^16, bit-array byte
+length, cardinalities incl. `1..n`, exactly one present member per choice group and it passes the encoder's "present?"
+test, every TLV shorter than 2^16). `SchemaWF S` (Model/SchemaWF.lean) is the decidable condition on the table the proof
+needs: field discipline (packed bytes, `rest` last), TLV ids < 1024, TV parameters fixed and slot-free, distinct type
+ids inside a decoder group, FOLLOW-SET DISJOINTNESS of optional/loop groups, the generator's `min_size` a true lower
+bound, fixed-size containers slot-free, and a bound on the number of decoder groups (decoder fuel). -/
+
+/-- the only place that depends on the concrete fuel `decode` starts with: it is at least 4 per byte + 8
+(`decBody_encode` holds for every such fuel) -/
+theorem decode_of_fuel (S : Schema) (c : Container) (d : Bytes) (v : Val)
+    (h : ∀ fd, 4 * d.length + 8 ≤ fd → decBody S fd c d = some v) : decode S c d = some v :=
+  h _ (Nat.le_refl _)
+
+/-- ROUND TRIP: decoding the encoding of a well-formed value of any message or parameter type gives the value back -/
+theorem decode_encode (S : Schema) (hS : SchemaWF S = true) (c : Container) (hc : c ∈ S) (v : Val)
+    (hv : fits S c v = true) : decode S c (encode S c v) = some v :=
+  decode_of_fuel S c _ v (decBody_encode S hS c hc v hv)
+
+/-- re-encoding what was decoded reproduces the bytes -/
+theorem reencode (S : Schema) (hS : SchemaWF S = true) (c : Container) (hc : c ∈ S) (v : Val)
+    (hv : fits S c v = true) : (decode S c (encode S c v)).map (encode S c) = some (encode S c v) := by
+  rw [decode_encode S hS c hc v hv]; rfl
+
+/-- the regenerated table satisfies the condition (kernel evaluation over all 169 entries) -/
+theorem schema_wf : SchemaWF Gen.schema = true := by decide +kernel
+
+/-- the round trip for the codec of this repository -/
+theorem decode_encode_gen (c : Container) (hc : c ∈ Gen.schema) (v : Val) (hv : fits Gen.schema c v = true) :
+    decode Gen.schema c (encode Gen.schema c v) = some v :=
+  decode_encode Gen.schema schema_wf c hc v hv
+
+/-! ### non-vacuity: concrete nested values are well-formed -/
+
+/-- a TagReportData (29 slots) from the list of its non-empty slots -/
+def trd (present : List (Nat × Val)) : Val :=
+  .node [] ((List.range 29).map fun i => (present.filter (·.1 == i)).map (·.2))
+
+/-- ROAccessReport with two TagReportData: one with an EPC96, AntennaID, (signed) PeakRSSI, FirstSeenUTC and a
+C1G2ReadOpSpecResult carrying two words; one with a 13-bit EPCData and a TagSeenCount -/
+def exReport : Val :=
+  .node [] [[trd [(1, .node [.bytes [0xe2, 0, 0x10, 0x20, 0x30, 0x40, 0x50, 0x60, 0x70, 0x80, 0x90, 0xa0]] []),
+                  (5, .node [.num 3] []), (6, .node [.num (-61)] []), (8, .node [.num 1695999999123456] []),
+                  (18, .node [.num 0, .num 7, .nums [0x1234, 0xabcd]] [])],
+             trd [(0, .node [.bits 13 [0xab, 0xc8]] []), (12, .node [.num 65535] [])]],
+            [], []]
+
+example : fits Gen.schema Gen.m_ROAccessReport exReport = true := by decide +kernel
+example : decode Gen.schema Gen.m_ROAccessReport (encode Gen.schema Gen.m_ROAccessReport exReport) = some exReport :=
+  decode_encode_gen _ (by decide +kernel) _ (by decide +kernel)
+example : (encode Gen.schema Gen.m_ROAccessReport exReport).length = 59 := by decide +kernel
+
+/-- AddROSpec ▸ ROSpec ▸ (ROBoundarySpec ▸ start/stop trigger; AISpec ▸ stop trigger, InventoryParameterSpec) -/
+def exAddROSpec : Val :=
+  .node [] [[.node [.num 1, .num 0, .num 0]
+    [[.node [] [[.node [.num 0] [[], []]], [.node [.num 0, .num 0] [[]]]]],
+     [.node [.nums [1, 2]] [[.node [.num 0, .num 0] [[], []]], [.node [.num 1, .num 1] [[], []]], []]],
+     [], [], [], []]]]
+
+example : fits Gen.schema Gen.m_AddROSpec exAddROSpec = true := by decide +kernel
+example : decode Gen.schema Gen.m_AddROSpec (encode Gen.schema Gen.m_AddROSpec exAddROSpec) = some exAddROSpec :=
+  decode_encode_gen _ (by decide +kernel) _ (by decide +kernel)
+
+/-- outside `fits` the round trip does fail: a TagReportData whose EPCData has 0 bits (known finding) -/
+example : fits Gen.schema Gen.p_TagReportData (trd [(0, .node [.bits 0 []] [])]) = false := by decide +kernel
 
 /-! ## JSON form: struct shapes that `encoding/json` maps losslessly -/
 
